@@ -184,7 +184,148 @@ def run_names(w):
         shutil.rmtree(tmp, ignore_errors=True)
 
 
-def run_fromfile(w):
+def _parse_files(toks):
+    files, cur = [], None
+    for t in toks:
+        if t == "F":
+            cur = None
+        elif cur is None:
+            cur = (unhex(t), [])
+            files.append(cur)
+        else:
+            n, q = t.split(":")
+            cur[1].append((unhex(n), unhex(q)))
+    return files
+
+
+def _tmpdir(prefix):
+    import os, tempfile
+    base = os.path.join(os.environ.get("VERIF_BUILD") or os.path.join(os.path.dirname(os.path.dirname(
+        os.path.dirname(os.path.abspath(__file__)))), ".build"), "tmp")
+    os.makedirs(base, exist_ok=True)
+    return tempfile.mkdtemp(prefix=prefix, dir=base)
+
+
+def _cli(argv):
+    """the command line, in-process: sourmash.__main__.main(argv); returns None on success or the error token"""
+    import sourmash.__main__
+    try:
+        with contextlib.redirect_stdout(io.StringIO()):
+            sourmash.__main__.main(argv)
+    except SystemExit as e:
+        if e.code in (None, 0):
+            return None
+        return "err SystemExit"
+    return None
+
+
+def _collect(inputs):
+    import os
+    outs = []
+    for d, _, fs in os.walk("."):
+        for f in fs:
+            pth = os.path.normpath(os.path.join(d, f))
+            if pth.endswith(".sig") and pth not in inputs:
+                outs.append(pth)
+    got = []
+    for pth in sorted(outs):
+        for ss in sourmash.load_file_as_signatures(pth):
+            got.append(f"{hexs(pth)}|{hexs(ss.name)}|{hexs(ss.filename)}|{params_rec(ss.minhash)}|{ss.md5sum()}")
+    return "ok " + ";".join(got)
+
+
+def _mode_argv(mode, flags, files):
+    """the file-handling options of sketch / compute for a mode+flags token; writes the inputs"""
+    import os
+    argv = []
+    for fname, recs in files:
+        if os.path.dirname(fname):
+            os.makedirs(os.path.dirname(fname), exist_ok=True)
+        with open(fname, "w") as fh:
+            for n, q in recs:
+                fh.write(f">{n}\n{q}\n")
+    if "dir" in flags:
+        os.mkdir("outd")
+    if "dir" in flags or "newdir" in flags:
+        argv += ["--output-dir", "outd"]
+    elif "cwd" not in flags:
+        argv += ["-o", "out.sig"]
+    if mode.startswith("merge:"):
+        argv += ["--merge", unhex(mode.split(":")[1])]
+    elif mode == "singleton":
+        argv.append("--singleton")
+    elif mode == "first":
+        argv.append("--name-from-first")
+    if "rand" in flags:
+        argv.append("--randomize")
+    if "check" in flags:
+        argv.append("--check-sequence")
+    names = [f for f, _ in files]
+    if "fromfile" in flags:
+        with open("inputs.txt", "w") as fh:
+            fh.write("\n".join(names) + "\n")
+        argv += ["--from-file", "inputs.txt"]
+    else:
+        argv += names
+    return argv
+
+
+def run_sk(w):
+    """sk <dna|protein|translate> <defmol> <mode+flags> P <hexp>.. F <files>..   -> `sourmash sketch <sub> ...` through main()"""
+    import os, shutil
+    sub, dm = w[1], w[2]
+    mflags = w[3].split("+")
+    iF = w.index("F") if "F" in w else len(w)
+    ps = [unhex(t) for t in w[5:iF]]
+    files = _parse_files(w[iF:])
+    tmp = _tmpdir("c14sk")
+    old = os.getcwd()
+    try:
+        os.chdir(tmp)
+        argv = ["sketch", sub]
+        if sub != "dna" and dm in ("dayhoff", "hp"):
+            argv.append("--" + dm)
+        for s in ps:
+            argv += ["-p", s]
+        argv += _mode_argv(mflags[0], mflags[1:], files)
+        e = _cli(argv)
+        return e if e else _collect(set(f for f, _ in files))
+    finally:
+        os.chdir(old)
+        shutil.rmtree(tmp, ignore_errors=True)
+
+
+def run_cmp(w):
+    """cmp <ks,> <dna> <protein> <dayhoff> <hp> <num> <scaled|lt1|frac> <track> <seed> <inprot> <mode+flags> F <files>..
+    -> `sourmash compute ...` through main()"""
+    import os, shutil
+    ks, dna, pr, dy, hp, num, sc, tr, seed, inprot = w[1:11]
+    mflags = w[11].split("+")
+    files = _parse_files(w[12:])
+    tmp = _tmpdir("c14cmp")
+    old = os.getcwd()
+    try:
+        os.chdir(tmp)
+        argv = ["compute", "-q", "-k", ks, "-n", num, "--seed", seed]
+        argv.append("--dna" if dna == "1" else "--no-dna")
+        for flag, v in (("protein", pr), ("dayhoff", dy), ("hp", hp)):
+            if v == "1":
+                argv.append("--" + flag)
+        if sc != "0":
+            argv += ["--scaled", {"lt1": "0.5", "frac": "2.5"}.get(sc, sc)]
+        if tr == "1":
+            argv.append("--track-abundance")
+        if inprot == "1":
+            argv.append("--input-is-protein")
+        argv += _mode_argv(mflags[0], mflags[1:], files)
+        e = _cli(argv)
+        return e if e else _collect(set(f for f, _ in files))
+    finally:
+        os.chdir(old)
+        shutil.rmtree(tmp, ignore_errors=True)
+
+
+def run_fromfile(w, cli=False):
     """fromfile <ign> P <hexp>.. F <fnamehex> <namehex:seqhex>.. R <namehex>:<ghex>:<phex>.. A <namehex>:<mol>:<k>:<num>:<scaled>:<abund>..
     the real `sketch fromfile` (command_sketch.fromfile) in-process on a temp dir under .build/tmp"""
     import argparse, os, shutil, tempfile
@@ -245,9 +386,21 @@ def run_fromfile(w):
                                   force=False)
         try:
             with contextlib.redirect_stdout(io.StringIO()):       # print_results() writes summaries to stdout
-                fromfile(args)
+                if cli:
+                    from sourmash.__main__ import main as sm_main
+                    argv = ["sketch", "fromfile", "in.csv", "-o", "out.sig"]
+                    for t in ps:
+                        argv += ["-p", unhex(t)]
+                    if already:
+                        argv += ["--already-done"] + already
+                    if ign:
+                        argv.append("--ignore-missing")
+                    sm_main(argv)
+                else:
+                    fromfile(args)
         except SystemExit as e:
-            return f"exit {e.code}"
+            if e.code is not None or not cli:
+                return f"exit {e.code}"
         got = []
         if os.path.exists("out.sig"):
             for ss in sourmash.load_file_as_signatures("out.sig"):
@@ -299,6 +452,12 @@ def main():
                     res = f"ok {hexs(sig.name)}|{hexs(sig.filename)}"
                 elif op == "fromfile" and len(w) >= 3:
                     res = run_fromfile(w)
+                elif op == "fromfilecli" and len(w) >= 3:
+                    res = run_fromfile(w, cli=True)
+                elif op == "sk" and len(w) >= 5:
+                    res = run_sk(w)
+                elif op == "cmp" and len(w) >= 12:
+                    res = run_cmp(w)
                 elif op == "names" and len(w) >= 3:
                     res = run_names(w)
                 elif op == "native":
